@@ -18,7 +18,7 @@ def builds_needed(tier):
 
 # Own corpus re-run on other builds of the crate (mc/core.py: extra builds). Every observation is compared with the same model.
 def extra_builds(tier):
-    return [("relchk", None), ("avx2", None)]
+    return [("relchk", None), ("native", None)]
 
 
 
@@ -172,7 +172,16 @@ def shards(tier):
     from props import c05
     # the AEAD tag is a Poly1305 tag under a one-time key the caller cannot choose: the rare accumulator states of the MAC
     # (limb carries, the 2^130 wrap, the final conditional subtraction) are therefore driven on the MAC directly, as a component
-    return _own_shards(tier) + [("shard_poly_component", ("shard_limbs", i)) for i in range(c05.NLIMB)] + [("shard_poly_component", ("shard_crafted", None))]
+    sh = _own_shards(tier) + [("shard_poly_component", ("shard_limbs", i)) for i in range(c05.NLIMB)] + [("shard_poly_component", ("shard_crafted", None))]
+    # likewise the cipher half: block counters beyond the first few blocks (a message of 4 MiB and more) are reached by seek on the
+    # same ChaCha context type the AEAD drives
+    sh += [("shard_chacha_component", ("shard_counterbits", ("chacha", 20))), ("shard_chacha_component", ("shard_seekhist", 20))]
+    return sh
+
+
+def shard_chacha_component(arg, tier):
+    from mc import multi
+    return multi.run_component("c03", arg[0], arg[1], tier, PROPERTY_ID)
 
 
 def shard_poly_component(arg, tier):
